@@ -5,8 +5,11 @@ relay probe's own outcome log (one expected bounce per (failure event, reply) gr
 original sender, naming exactly that group's recipients), compared as multisets with the
 bounces the Queue produced; content checks on what reached bounce_queue.enqueue (null
 sender, addressee, reply quoted, recipients named, original header block -- and body unless
-headers-only -- embedded byte-identically); no bounce for a null-sender message (so no
-bounce of a bounce); bounded message creation.
+headers-only -- embedded byte-identically: the bounce is parsed, the original must be the whole
+content of its last part; with a harness-chosen custom template the whole body is compared with an
+independent rendering); over the whole history a recipient is named in at most one bounce of its
+message and never once the relay probe recorded it delivered; no bounce for a null-sender message
+(so no bounce of a bounce); bounded message creation.
 """
 import random
 
@@ -20,14 +23,25 @@ LEVEL_TEXT = ('Real slimta Queue + Bounce on all backends through failure-heavy 
               'exhaustion with grouped transient replies and after unexpected exceptions, bounces that themselves '
               'fail or exhaust, 8-bit bodies, up to 20 recipients, bounce factories returning None, headers-only '
               'bounces, a separate bounce queue. Expected bounces are derived from what the relay probe reported, '
-              'independently of the Queue\'s grouping code. Held = held on the histories reported.')
+              'independently of the Queue\'s grouping code. A content stratum varies the original (8-bit / NUL / '
+              'dot-leading / bare-LF bodies, 3000-byte lines, no trailing newline, empty body; folded, 8-bit and '
+              '1200-byte header fields), the reply text (braces that look like template keys, non-ASCII), non-ASCII '
+              'recipient addresses, headers-only both ways and custom header/footer templates given as text or '
+              'bytes with a custom recipient join: with the default template the bounce is parsed (report parts name '
+              'exactly the failed recipients once each and quote the reply; the last part is exactly the original '
+              'header block, plus body unless headers-only); with a harness-chosen template the whole bounce body '
+              'is compared byte for byte with an independent rendering. Over the whole history a recipient is '
+              'named in at most one bounce of its message and never after the relay probe recorded it delivered. '
+              'Held = held on the histories reported.')
 LEVEL_NOTE = 'Trusted: relay probe outcome log, the reference grouping (40 lines), virtual clock, backend doubles.'
 TECHNIQUE = 'runtime monitoring: multiset comparison of observed bounce envelopes against a reference grouping of the recorded failure events, plus content and no-loop invariants'
 RULE = ('case = one seeded failure-heavy history. non-trivial = history with >= 2 distinct failure replies in one '
         'failure event, or a bounce that itself fails; distinct by (backend, outcome-shape, bounce configuration)')
 ASSUMPTIONS = ['"one bounce per distinct failure reply" is judged per failure event (one attempt\'s permanent failures, '
                'or one exhaustion), as the Queue has no memory across events']
-REQUIRED_HITS = ['attempt-outcomes-observed', 'histories-judged', 'bounces-observed']
+REQUIRED_HITS = ['attempt-outcomes-observed', 'histories-judged', 'bounces-observed',
+                 'bounce-content-judged/default-template', 'bounce-content-judged/custom-template',
+                 'bounce-content-judged/headers-only', 'bounce-content-judged/8bit-or-odd-original']
 SHARDS = {'quick': 12, 'thorough': 16}
 BUDGET = {'quick': 70, 'thorough': 800}
 
@@ -37,6 +51,9 @@ BACKENDS = C.BACKENDS_ALL
 def gen_cases(tier, seed, shard, nshards):
     rnd = random.Random('c13-%d-%d' % (seed, shard))
     plan = C.backend_plan(8000 if tier == 'quick' else 220000, BACKENDS)
+    # the content stratum comes first: a budget cut on a loaded machine must not starve it
+    for case in _content_cases(tier, random.Random('c13c-%d-%d' % (seed, shard)), nshards):
+        yield case
     for be in BACKENDS:
         for i in range(max(1, plan[be] // nshards)):
             big = rnd.random() < 0.1
@@ -47,7 +64,7 @@ def gen_cases(tier, seed, shard, nshards):
                                                ['temp', 'temp', 'ok']]),
                    'nreplies': rnd.choice([1, 2, 3]),
                    'bounce_profile': rnd.choice([['ok'], ['perm', 'temp', 'ok'], ['perm', 'perm'], ['temp', 'temp', 'exc']]),
-                   'backoffs': rnd.choice([[None], [0, None], [0, 0, None], [3, None]]),
+                   'backoffs': rnd.choice([[None], [0, None], [0, 0, None], [3, None], 'default']),
                    'rcpts': (12, 20) if big else (1, 5), 'nmsg': rnd.randint(1, 2), 'null_sender_p': 0.15,
                    'store_pool': rnd.choice([None, None, None, 2]), 'relay_pool': rnd.choice([None, None, None, 2]),
                    'gate_p': rnd.choice([0.0, 0.25]),
@@ -58,7 +75,44 @@ def gen_cases(tier, seed, shard, nshards):
             yield {'cfg': cfg, 'seed': rnd.randrange(1 << 40)}
 
 
+BODIES = [None, b'', b'x', b'no trailing newline', b'a\nb\n', b'\r\n\r\n', b'.\r\n..\r\n.', b'\x00\xff\xfe\r\n',
+          b'L' * 3000 + b'\r\n', b'caf\xc3\xa9 \xff\xfe 8-bit body\r\n.\r\nline\r\n',
+          b'--boundary_=00000000000000000000000000000000--\r\nContent-Type: message/rfc822\r\n\r\n- r0.m0@d0.test\r\n']
+HDRS = [None, b'X-8bit: caf\xc3\xa9 \xff\r\n', b'X-Fold: a\r\n folded\r\n\tmore\r\n', b'X-Long: ' + b'y' * 1200 + b'\r\n',
+        b'X-Words: ' + b'w ' * 300 + b'\r\n', b'Content-Type: text/plain; charset="utf-8"\r\nContent-Transfer-Encoding: 8bit\r\n']
+
+
+def _content_cases(tier, rnd, nshards):
+    n = (2400 if tier == 'quick' else 60000) // nshards
+    for i in range(max(1, n)):
+        tpl = rnd.choice([None, None, None, 'text', 'bytes', 'nofooter'])
+        cfg = {'backend': rnd.choice(['dict', 'dict', 'cloud', 'cloud-lenient', 'cloud-mq'] + (['disk'] if i % 12 == 0 else [])),
+               'stratum': 'content',
+               'profile': rnd.choice([['perm', 'map', 'map', 'temp'], ['map', 'seq'], ['perm', 'temp']]),
+               'rcpt_profile': rnd.choice([['perm', 'perm', 'temp', 'ok'], ['perm', 'temp'], ['perm', 'ok']]),
+               'nreplies': rnd.choice([1, 2, 3]), 'bounce_profile': ['ok'],
+               'backoffs': rnd.choice([[None], [0, None]]),
+               'rcpts': (12, 20) if rnd.random() < 0.1 else (1, 5), 'nmsg': rnd.randint(1, 2), 'null_sender_p': 0.05,
+               'headers_only': rnd.random() < 0.5, 'body': rnd.choice(BODIES), 'extra_hdr': rnd.choice(HDRS),
+               'bounce_tpl': tpl, 'reply_style': rnd.choice([None, 'hostile']),
+               'rcpt_style': rnd.choice([None, 'utf8']) if tpl is None else None,
+               'dup_rcpts': 1 if rnd.random() < 0.1 else 0,
+               'sep_bounce_queue': rnd.choice([False, False, 'relay']), 'ndom': rnd.choice([1, 3]), 'steps': 18}
+        yield {'cfg': cfg, 'seed': rnd.randrange(1 << 40)}
+
+
 def _hits(lab, H, R):
+    nb = sum(1 for e in lab.events if e[1] == 'bounce_enqueued' and e[2] is not None)
+    if nb:
+        cfg = lab.cfg
+        R.hit('bounce-content-judged/%s-template' % ('custom' if cfg.get('bounce_tpl') else 'default'), nb)
+        if cfg.get('headers_only'):
+            R.hit('bounce-content-judged/headers-only', nb)
+        if cfg.get('body') is not None or cfg.get('extra_hdr'):
+            R.hit('bounce-content-judged/8bit-or-odd-original', nb)
+        for k in ('reply_style', 'rcpt_style', 'bounce_tpl'):
+            if cfg.get(k):
+                R.count('bounces/%s=%s' % (k, cfg[k]), nb)
     R.hit('bounces-observed', sum(1 for e in lab.events if e[1] == 'bounce_enqueued'))
     R.count('bounce-factory-calls', sum(1 for e in lab.events if e[1] == 'bounce_factory'))
     R.count('bounces-that-failed', sum(1 for e in lab.events if e[1] == 'attempt_end' and e[2].startswith('b')
